@@ -164,7 +164,7 @@ def run(tier, seed):
     for (p, q) in c02.AXIS[:8] + [c02.draw_rotation(rng, 4) for _ in range(12 if tier == "quick" else 300)]:
         pairs.append([rng.choice(ms), p, q])
     common.write_data_module(wd, "OrientCases", {"Pairs": common.TlaSet(pairs), "Mats": common.TlaSet([[[1, 0, 0], [0, 1, 0], [0, 0, 1]]]),
-                                                 "Hkls": common.TlaSet([[1, 0, 0]])})
+                                                 "Hkls": common.TlaSet([[1, 0, 0]]), "IllMats": common.TlaSet([])})
     ro = common.run_tlc("Orient", "MC_Orient.cfg", wd, timeout=900)
     states += ro.distinct
     trans += ro.generated
